@@ -27,6 +27,8 @@ ASSUMPTIONS = [
 def own_matrix(c, n):
     U = np.eye(2 ** n, dtype=complex)
     for op in c.operations:
+        q = tuple(op.qubit_indices)
+        require(len(set(q)) == len(q) and all(0 <= i < n for i in q), lambda: f"operation {op} has invalid qubit indices {q} on {n} qubits")
         U = ref.embed(ref.npm(op.gate.matrix), op.qubit_indices, n) @ U
     return U
 
